@@ -464,6 +464,7 @@ package tree
 //@     assigns elems(visited), mapof("map[string]*Node")
 //@     invariant [inv_kept] INV12()
 //@     invariant [ids_kept] forall e *Edge :: {e.id} allocated(e) ==> 0 <= e.id && e.id < len(visited)
+//@     step [a_branch_that_is_not_crossed_is_not_marked] !(n != prev && b.length < maxlen) ==> (forall k int :: {visited[k]} 0 <= k && k < len(visited) ==> visited[k] == atHead(visited[k]))
 
 //@ func (*tree.Tree).CutEdgesMaxLength
 //@   flag noframe
